@@ -279,6 +279,12 @@ void run_history(const Workload& w, Result& res) {
             if (a.use_count() != 2) res.fail("cptr_count", "NoDelete: use_count after copy+move is " + std::to_string(a.use_count()));
             c.reset();
             if (!a.unique()) res.fail("cptr_count", "NoDelete: not unique after reset of the copy");
+            // the last owner lets go through reset() (not through its destructor): the handle's own deleter decides
+            a.reset();
+            if (sim::rt_cell_get(uint32_t(CELL_BASE + stack_obj.id)) != 1) res.fail("cptr_double_destroy", "NoDelete: reset() of the last handle destroyed the object");
+            else if (stack_obj.reference_count() != 0) res.fail("cptr_count", "NoDelete: count not zero after reset() of the last handle");
+            NPtr again(&stack_obj);   // and the object can be handed out again
+            if (!again.unique()) res.fail("cptr_count", "NoDelete: not unique when handed out again");
         }
         if (sim::rt_cell_get(uint32_t(CELL_BASE + stack_obj.id)) != 1) res.fail("cptr_double_destroy", "NoDelete deleter destroyed the object");
         if (stack_obj.reference_count() != 0) res.fail("cptr_count", "NoDelete: count not back to zero");
